@@ -229,7 +229,7 @@ func chunks(ctl string) (out []string) {
 	return
 }
 
-// simple draws a control string over literal text and the four fully modelled directives (~% ~& ~~ ~|,
+// simple draws a control string over literal text and the fully modelled directives (~% ~& ~~ ~| ~* ~T,
 // with prefix parameters and modifiers) plus, rarely, another directive letter; returns the control
 // string, the Lisp argument text and the arguments as Gallina terms.
 func (g *fmtGen) simple() (string, string, []string) {
@@ -276,7 +276,7 @@ func (g *fmtGen) simple() (string, string, []string) {
 			sb.WriteString("::")
 		}
 		if g.r.Chance(92) {
-			sb.WriteString(common.Pick(g.r, []string{"%", "&", "~", "|"}))
+			sb.WriteString(common.Pick(g.r, []string{"%", "&", "~", "|", "%", "&", "*", "*", "T", "T", "T", "t"}))
 		} else if g.r.Chance(50) {
 			sb.WriteString(common.Pick(g.r, []string{"Z", "!", "V", "q", "\"", ".", ")", "]"}))
 		}
